@@ -290,14 +290,53 @@ theorem p2wscript_is_union (p : Bytes) :
 
 /-! ## The assemble–disassemble round trip -/
 
+/-- `Assemble(Disassemble(p))`, when `Disassemble` succeeds -/
 def asmDis (p : Bytes) : Option (Except AErr Bytes) :=
   match disassemble p with
   | .ok t => some (assemble t)
   | .error _ => none
 
-/-- the F6 witness: `JUMP 1` (target inside the instruction) -/
+/-- The property as stated: disassembling a parsable program and assembling the text gives a
+    program that parses to the same instruction sequence. -/
+def asm_disasm_full : Prop :=
+  ∀ p : Bytes, p.length < 4294967296 → ∀ t, disassemble p = .ok t →
+    ∃ q, assemble t = .ok q ∧ parseProgram q = parseProgram p
+
+/-- F6a: `JUMP 1` — the target is inside the instruction, so its label is never defined -/
 def f6Witness : Bytes := [0x63, 0x01, 0x00, 0x00, 0x00]
 
-theorem f6_witness_fails : asmDis f6Witness = some (.error .undef) := by decide
+theorem f6a_jump_off_boundary : asmDis f6Witness = some (.error .undef) := by decide
+/-- F6a': a jump past the end (target 6 in a 5-byte program) -/
+theorem f6a_jump_past_end : asmDis [0x63, 0x06, 0x00, 0x00, 0x00] = some (.error .undef) := by decide
+/-- F6b: OP_1 comes back as DATA_1 0x01 (same data, different instruction) -/
+theorem f6b_small_int_reencoded :
+    asmDis [0x51] = some (.ok [0x01, 0x01]) ∧ parseProgram [0x01, 0x01] ≠ parseProgram [0x51] := by decide
+/-- F6b': a non-minimal push comes back minimal -/
+theorem f6b_nonminimal_push_reencoded :
+    asmDis [0x4c, 0x01, 0x61] = some (.ok [0x01, 0x61]) ∧ parseProgram [0x01, 0x61] ≠ parseProgram [0x4c, 0x01, 0x61] := by
+  decide
+/-- F6c: an empty PUSHDATA1 prints as the opcode name, which the assembler refuses -/
+theorem f6c_empty_pushdata : asmDis [0x4c, 0x00] = some (.error .token) := by decide
+/-- F6d: an unassigned opcode prints as NOPx50, which `opsByName` does not contain -/
+theorem f6d_expansion_opcode : asmDis [0x50] = some (.error .token) := by decide
+
+/-- **asm_disasm, full statement: refuted** by the witness `63 01 00 00 00` -/
+theorem asm_disasm_full_refuted : ¬ asm_disasm_full := by
+  intro h
+  have hd : disassemble f6Witness = .ok [0x4a, 0x55, 0x4d, 0x50, 0x3a, 0x24, 0x61, 0x6c, 0x70, 0x68, 0x61] := by decide
+  obtain ⟨q, hq, _⟩ := h f6Witness (by decide) _ hd
+  have : assemble [0x4a, 0x55, 0x4d, 0x50, 0x3a, 0x24, 0x61, 0x6c, 0x70, 0x68, 0x61] = .error .undef := by decide
+  rw [this] at hq
+  cases hq
+
+/-- the same statement weakened to "Assemble succeeds" is refuted as well -/
+theorem asm_disasm_succeeds_refuted :
+    ¬ (∀ p : Bytes, p.length < 4294967296 → ∀ t, disassemble p = .ok t → ∃ q, assemble t = .ok q) := by
+  intro h
+  have hd : disassemble [0x50] = .ok [0x4e, 0x4f, 0x50, 0x78, 0x35, 0x30] := by decide
+  obtain ⟨q, hq⟩ := h [0x50] (by decide) _ hd
+  have : assemble [0x4e, 0x4f, 0x50, 0x78, 0x35, 0x30] = .error .token := by decide
+  rw [this] at hq
+  cases hq
 
 end BytomModel.Props.C09
